@@ -267,6 +267,9 @@ func hasMethod(T types.Type, name string) bool {
 }
 
 // runApp analyses one application-layer payload type in every variant.
+// streamTrailMax: longest trailer tried by the stream rule; longer than the largest fixed-size application command (29 bytes).
+const streamTrailMax = 32
+
 func runApp(c *Ctx, sp aspec) *codecResult {
 	res := &codecResult{Spec: ws{Pkg: sp.Pkg, Type: sp.Type}}
 	probe := absint.NewInterp(c.Prog)
@@ -402,35 +405,48 @@ func runApp(c *Ctx, sp aspec) *codecResult {
 		}
 		// stream convention: a following byte must not disturb decoding; a missing byte must be rejected
 		if !v.NoStream {
-			bk := &absint.Backing{}
-			for i := 0; i < out.Len(); i++ {
-				bk.E = append(bk.E, &absint.Cell{V: out.At(i).V})
+			// trailers of every length 1..streamTrailMax, all bytes symbolic; one obligation per variant,
+			// reporting the shortest trailer that disturbs decoding
+			streamOK, streamWhy, streamUndec := true, fmt.Sprintf("same value with every trailer of 1..%d arbitrary bytes", streamTrailMax), ""
+			var trail []absint.Value
+			for j := 0; j < streamTrailMax; j++ {
+				trail = append(trail, in.D.Sym(fmt.Sprintf("next-command-byte%d/%s", j, tag), 8, false, false))
 			}
-			bk.E = append(bk.E, &absint.Cell{V: in.D.Sym("next-command-byte/"+tag, 8, false, false)})
-			longer := &absint.Slice{Back: bk, Hi: len(bk.E), Cap: len(bk.E), Elem: out.Elem}
-			in.SetLive(A)
-			recv2, de2, e2 := decode(longer)
-			switch {
-			case e2 != nil:
-				res.undecided("undecided", "stream/"+tag, e2.Error(), pos)
-			case de2 != nil && d.M.And(A, de2.NonNil) != absint.False:
-				res.add("app.stream", "stream/"+tag, false, "payload followed by another command still decodes (length test is a lower bound)", "rejected: "+witnessOr(in, d.M.And(A, de2.NonNil), ""), pos)
-			default:
-				same := true
-				why := "same value with a trailing byte"
-				func() {
-					defer func() {
-						if r := recover(); r != nil {
-							same, why = false, fmt.Sprint(r)
-						}
+			for tl := 1; tl <= streamTrailMax && streamOK && streamUndec == ""; tl++ {
+				bk := &absint.Backing{}
+				for i := 0; i < out.Len(); i++ {
+					bk.E = append(bk.E, &absint.Cell{V: out.At(i).V})
+				}
+				for j := 0; j < tl; j++ {
+					bk.E = append(bk.E, &absint.Cell{V: trail[j]})
+				}
+				longer := &absint.Slice{Back: bk, Hi: len(bk.E), Cap: len(bk.E), Elem: out.Elem}
+				in.SetLive(A)
+				recv2, de2, e2 := decode(longer)
+				switch {
+				case e2 != nil:
+					streamUndec = fmt.Sprintf("trailer of %d bytes: %s", tl, e2.Error())
+				case de2 != nil && d.M.And(A, de2.NonNil) != absint.False:
+					streamOK, streamWhy = false, fmt.Sprintf("rejected with a trailer of %d bytes: %s", tl, witnessOr(in, d.M.And(A, de2.NonNil), ""))
+				default:
+					func() {
+						defer func() {
+							if r := recover(); r != nil {
+								streamOK, streamWhy = false, fmt.Sprint(r)
+							}
+						}()
+						deepCompare(in, "", recv2.V, val, A, func(p string, ok bool, w string) {
+							if !ok && streamOK {
+								streamOK, streamWhy = false, fmt.Sprintf("with a trailer of %d bytes %s: %s", tl, p, w)
+							}
+						})
 					}()
-					deepCompare(in, "", recv2.V, val, A, func(p string, ok bool, w string) {
-						if !ok && same {
-							same, why = false, p+": "+w
-						}
-					})
-				}()
-				res.add("app.stream", "stream/"+tag, same, "payload followed by another command decodes to the same value", why, pos)
+				}
+			}
+			if streamUndec != "" {
+				res.undecided("undecided", "stream/"+tag, streamUndec, pos)
+			} else {
+				res.add("app.stream", "stream/"+tag, streamOK, "payload followed by further commands decodes to the same value (length test is a lower bound, nothing beyond Size() is read)", streamWhy, pos)
 			}
 		}
 		if out.Len() > 0 && !v.NoStream {
